@@ -319,9 +319,14 @@ func (bs *baseServer) Handshake(transportName string, ctx *types.HttpContext) (*
 
 	transport.On("headers", func(args ...any) {
 		headers, req := args[0].(*utils.ParameterBag), args[1].(*types.HttpContext)
-		if !ctx.Query().Has("sid") {
+		// the initial request of the session is the one that carries no sid: test the
+		// request being answered, not the handshake request captured by this closure
+		if !req.Query().Has("sid") {
 			if cookie := bs.opts.Cookie(); cookie != nil {
-				headers.Set("Set-Cookie", cookie.String())
+				// the cookie identifies the session: its value is the session id
+				sessionCookie := *cookie
+				sessionCookie.Value = id
+				headers.Set("Set-Cookie", sessionCookie.String())
 			}
 			bs.Emit("initial_headers", headers, req)
 		}
